@@ -110,6 +110,13 @@ def make_config(rng, nt, ns, cache_mode, twins, repeats):
         raw["solver"]["surface_flux_shape"] = str(rng.choice(["diamond", "circle", "point"]))
     raw["_timestamps_kind"] = tk
     cfg = parse_config_dict({k: v for k, v in raw.items() if not k.startswith("_")})
+    raw["_tower_moved_by_hand"] = None
+    if twins == "distinct" and rng.random() < 0.3:
+        # a mast moved by the user after the configuration was built (its local coordinates edited, lat / lon left as they were): every
+        # driver computes for the tower where it now stands
+        t_ = cfg.towers[int(rng.integers(len(cfg.towers)))]
+        t_.x, t_.y = float(rng.uniform(20, 140)), float(rng.uniform(10, 80))
+        raw["_tower_moved_by_hand"] = t_.name
     return cfg, raw
 
 
@@ -209,6 +216,9 @@ def run_case(case):
     repeats = bool(ns >= 2 and rng.random() < 0.4)
     parent_threads = int(rng.choice([1, 4]))
     cfg, raw = make_config(rng, nt, ns, cache_mode, twins, repeats)
+    import copy as _copy
+
+    cfg_given = _copy.deepcopy(cfg)
     viol, sigs = [], []
     counters = {"driver_calls": 0, "parallel_calls": 0, "entries_compared": 0, "entries_bitwise": 0, "worker_log_records": 0,
                 "out_of_order_completions": 0, "distinct_worker_pids": 0}
@@ -455,6 +465,12 @@ def run_case(case):
         clean_cache()
         if os.path.exists(logf):
             os.unlink(logf)
+    if cfg != cfg_given:
+        # the drivers were handed the caller's configuration: it comes back as it was given (a mast moved by hand stays where it was put)
+        viol.append({"what": "driver_changes_the_callers_configuration", "towers_before": [(t.name, t.x, t.y) for t in cfg_given.towers],
+                     "towers_after": [(t.name, t.x, t.y) for t in cfg.towers], "options": desc})
+    if raw.get("_tower_moved_by_hand"):
+        buckets["tower_moved_by_hand"] = 1
     buckets[f"timestamps:{raw['_timestamps_kind']}"] = 1
     buckets.update({f"shape:{nt}x{ns}": 1, f"cache:{cache_mode}": 1, f"parent_threads:{parent_threads}": 1})
     buckets[f"towers:{twins}"] = 1
